@@ -133,13 +133,16 @@ def planted_structure(rng, pname=None, cell_kind=None, ncopies=None, atol=0.05, 
     rng.shuffle(slots)
     span = [2, 2, 2]
     placed = []
+    # atoms of different copies / decoys are farther apart than any two atoms of one match can be, so that no match can
+    # mix atoms of two planted objects (which would make matches overlap and the replacement refuse them)
+    sep = max(1.6, d + 3 * atol + 0.3)
 
     def far_enough(pts):
         for p in pts:
             for qpt in placed:
                 dv = (np.array(p) - np.array(qpt)).dot(cinv)
                 dv -= np.round(dv)
-                if np.linalg.norm(dv.dot(cellf)) < 1.6:
+                if np.linalg.norm(dv.dot(cellf)) < sep:
                     return False
         return True
 
